@@ -54,6 +54,15 @@ class Rotation:
         q = symnp.asarray(q).reshape(-1)
         if q.shape[0] != 4:
             raise ValueError('Expected `quat` to have shape (4,) or (N, 4), got %s.' % (q.shape,))
+        # a quaternion produced by from_matrix(M).as_quat() maps back to M (contract of the pair)
+        try:
+            from . import engine
+            tab = engine.CURRENT[0].memo.get('quat_tab', {})
+            key = tuple(S.pkey(Sym.lift(c).n) for c in q)
+            if key in tab:
+                return cls(matrix=tab[key].copy())
+        except Exception:
+            pass
         return cls(quat=[q[0], q[1], q[2], q[3]])
 
     def as_matrix(self):
@@ -224,3 +233,35 @@ class _RtreeIndex:
 def build_rtree():
     idx = _mod('rtree.index', Index=_RtreeIndex, Property=_RtreeProperty, Item=_RtreeItem)
     return _mod('rtree', index=idx), idx
+
+
+def install_quat_hook():
+    """Rotation.from_matrix(M).as_quat(): fresh unit quaternion q with R(q) = M (the function's contract)"""
+    import z3
+    counter = [0]
+
+    def hook(M):
+        from . import engine
+        c = engine.CURRENT[0]
+        n = c.memo.get('quat_n', 0)
+        c.memo['quat_n'] = n + 1
+        at = [S.new_atom('Q%d%s' % (n, ch), 'var') for ch in 'xyzw']
+        q = [Sym.atom(a) for a in at]
+        w_ = at[3]
+        if w_.id not in S.RULES:
+            S.RULES[w_.id] = {(): 1, ((at[0].id, 2),): -1, ((at[1].id, 2),): -1, ((at[2].id, 2),): -1}
+        R = quat_to_matrix(q)
+        ax = [sum((a.z * a.z for a in at[1:]), at[0].z * at[0].z) == 1]
+        deps = set(b.id for b in at)
+        for i in range(3):
+            for j in range(3):
+                m = Sym.lift(M[i, j])
+                ax.append(Sym.lift(R[i, j]).z() == m.z())
+                deps |= m.atoms()
+        for a in at:
+            a.axioms = ax
+            a.deps = tuple(deps - {a.id})
+        USED.note('scipy Rotation.as_quat (fresh unit quaternion with R(q) = M)')
+        c.memo.setdefault('quat_tab', {})[tuple(S.pkey(x.n) for x in q)] = symnp.asarray(M).copy()
+        return symnp.array(q)
+    QUAT_HOOK[0] = hook
